@@ -56,6 +56,9 @@ func (_this *Reader) Init(config *configuration.Configuration) {
 func (_this *Reader) SetReader(reader io.Reader) {
 	_this.contract = contractReader{reader: reader}
 	_this.reader = &_this.contract
+	// A new source is a new document: the document size limit applies to each
+	// document, not to everything this reader has ever read.
+	_this.bytesRead = 0
 }
 
 // contractReader adapts an arbitrary io.Reader to the narrower behaviour the
